@@ -21,7 +21,8 @@ def run(ctx):
         if ctx.quick:       # all primitives, every 4th composite
             prim = [s for s in out if s["expr"]["k"] in ("par", "tri", "circle", "interval", "sphere", "poly", "mesh")]
             rest = [s for s in out if s["expr"]["k"] not in ("par", "tri", "circle", "interval", "sphere", "poly", "mesh")]
-            nested = [s for s in rest if s["expr"]["k"] == "trans" and s["expr"]["d"]["k"] == "trans"]      # (few: always kept)
+            nested = [s for s in rest if (s["expr"]["k"] == "trans" and s["expr"]["d"]["k"] == "trans")       # (few: always kept)
+                      or (s["expr"]["k"] == "rot" and s["expr"].get("m") in ("z345", "x345", "y90", "zx"))]       # 3-D rotations
             rest = [s for s in rest if s not in nested]
             out = prim + nested + ctx.stratified(rest, 0.25, key=lambda s: geo_sig(s["expr"], False))
         scen = out
